@@ -7,7 +7,7 @@ JSON forms
   fields  [[key_atom, value], ...]          key atoms >= 20 are user fields "f<n>"
   exn     {"id": n, "cls": class id, "text": atom, "sr": bool}
   serfn   ["id"] | ["succ", exn] | ["double", exn] | ["const", z] | ["fail", exn] | ["failneg", exn]
-  stmt    ["msg", type, fields, ser|None, api]          api: log_message | Message.log | Message.new | typed
+  stmt    ["msg", type, fields, ser|None, api]          api: log_message | Message.log | Message.new | Message.bind | Message.write_action | typed
           ["actlog", h, type, fields]
           ["act", h, style, task, type, fields, sers|None, succ, body, api]
                  style: with | ctx | run ; sers: {"start": [[k, serfn]..], "success": [...]} ; api: start_action | ActionType
@@ -669,9 +669,15 @@ class Interp(object):
             with self.window("start", self.cur_ctx, decl=sers["start"], logged=fs, t=t, h=h):
                 a = self.call("ActionType", at.as_task if task else at, **kw)
         elif task:
-            a = self.call("start_task", el.start_task, action_type=type_name(t), **kw)
+            if h % 4 == 1:     # an explicit Logger object (all loggers share the process-wide destinations)
+                a = self.call("start_task", el.start_task, el.Logger(), type_name(t), **kw)
+            else:
+                a = self.call("start_task", el.start_task, action_type=type_name(t), **kw)
         else:
-            a = self.call("start_action", el.start_action, action_type=type_name(t), **kw)
+            if h % 4 == 1:
+                a = self.call("start_action", el.start_action, el.Logger(), type_name(t), **kw)
+            else:
+                a = self.call("start_action", el.start_action, action_type=type_name(t), **kw)
         self.register(h, a)
         return a
 
@@ -699,6 +705,20 @@ class Interp(object):
             elif api == "Message.new":
                 m = self.call("Message.new", el.Message.new, message_type=type_name(t), **kw)
                 self.call("Message.write", m.write)
+            elif api == "Message.bind":
+                # fields added in two steps: bind() returns a new message with the union
+                items = sorted(kw.items())
+                first, second = dict(items[:len(items) // 2]), dict(items[len(items) // 2:])
+                m = self.call("Message.new", el.Message.new, message_type=type_name(t), **first)
+                m2 = self.call("Message.bind", m.bind, **second)
+                self.call("Message.write", m2.write)
+            elif api == "Message.write_logger":
+                m = self.call("Message.new", el.Message.new, message_type=type_name(t), **kw)
+                self.call("Message.write", m.write, el.Logger())
+            elif api == "Message.write_action":
+                # the current action passed explicitly
+                m = self.call("Message.new", el.Message.new, message_type=type_name(t), **kw)
+                self.call("Message.write", m.write, action=el.current_action())
             else:
                 self.call("log_message", el.log_message, message_type=type_name(t), **kw)
         elif k == "actlog":
@@ -1296,7 +1316,7 @@ class Gen(object):
                 return ["msg", t, logged, decl, "typed"]
             if rng.random() < 0.06:
                 t = 5
-            return ["msg", t, self.fields(3, 32, 40, reserved=(1, 2, 3)), None, rng.choice(["log_message", "log_message", "Message.log", "Message.new"])]
+            return ["msg", t, self.fields(3, 32, 40, reserved=(1, 2, 3)), None, rng.choice(["log_message", "log_message", "Message.log", "Message.new", "Message.bind", "Message.write_action", "Message.write_logger"])]
         if r < 0.62 + self.p_raise:
             return ["raise", self.exn()]
         r2 = rng.random()
